@@ -44,6 +44,22 @@ def gen_cases(seed_, n):
                 sample[f"parent{pi}"] = parent
             models = [["Root", [sample]]]
             opts["merge"] = rng.choice([[["exact"]], [["percent", 0.7], ["number", 10]], [["percent", 1.0]]])
+        if i % 8 == 5:
+            # a recursive root (replies -> the root's own shape) and a small model referenced from several fields of the root *and* from
+            # several fields of one of its children: a shared model with two parents and no parent-less ancestor; which parent hosts it
+            # must not depend on set iteration order / object addresses
+            user = {f"u{x}": rng.choice([1, "x", 2.5]) for x in range(rng.randint(2, 3))}
+            refs = rng.sample(["author", "editor", "approver", "assignee", "owner", "reviewer"], rng.randint(2, 4))
+            refs2 = rng.sample(["created_by", "updated_by", "deleted_by", "locked_by", "seen_by"], rng.randint(2, 4))
+
+            def node(depth):
+                nd = {"id": 1, "text": "t", **{r: dict(user) for r in refs},
+                      "audit": {**{r: dict(user) for r in refs2}, "rev": 3, "ts": 1.5}, "replies": []}
+                if depth:
+                    nd["replies"] = [node(depth - 1) for _ in range(rng.randint(1, 2))]
+                return nd
+            models = [["Root", [node(rng.randint(1, 2))]]]
+            opts["merge"] = rng.choice([[["exact"]], [["percent", 0.7], ["number", 10]], [["percent", 0.7]]])
         if rng.random() < 0.25:
             jc2 = gen.json_case(rng, profile="merge")
             models.append(["Second", jc2["samples"]])
